@@ -63,6 +63,8 @@ struct Op {
     de_fail: Option<usize>,
     cancel: Option<usize>,
     wait: bool,
+    /// trailing bytes the receiver's deserializer does not read
+    pad: usize,
     /// after the call: give helper threads `pause` ms of real time, interleaved with scheduler rounds
     pause: usize,
 }
@@ -126,7 +128,7 @@ impl Case {
         )];
         for o in &self.ops {
             v.push(format!(
-                "op {} tag={} len={} halves={} serfail={} defail={} cancel={} await={} pause={}",
+                "op {} tag={} len={} halves={} serfail={} defail={} cancel={} await={} pause={} pad={}",
                 o.sender,
                 o.tag,
                 o.len,
@@ -135,7 +137,8 @@ impl Case {
                 show_opt(o.de_fail),
                 show_opt(o.cancel),
                 o.wait as u8,
-                o.pause
+                o.pause,
+                o.pad
             ));
         }
         v.push("end".into());
@@ -187,6 +190,7 @@ impl Case {
                         cancel: m.get("cancel").and_then(|s| opt(s)),
                         wait: m.get("await").map(|s| s == "1").unwrap_or(false),
                         pause: m.get("pause").and_then(|s| s.parse().ok()).unwrap_or(0),
+                        pad: m.get("pad").and_then(|s| s.parse().ok()).unwrap_or(0),
                     });
                 }
             } else if l == "end" {
@@ -312,13 +316,19 @@ fn build(op: &Op, wrap: Wrap, rng: &mut Rng) -> Built {
             Wrap::Mpsc => encoded_len(&Ok::<Item, rch::mpsc::RecvError>(it)),
         }
     };
-    let (size0, _) = measure(Item::new(op.tag, data.clone()));
+    let mk = |pad: usize| Item { tag: op.tag, halves: Vec::new(), data: data.clone(), pad };
+    let (size0, _) = measure(mk(op.pad));
+    let (need0, _) = measure(mk(0));
     let serfail = match op.ser_fail {
-        Some(i) if i <= op.len => {
+        Some(i) if i <= op.len + op.pad + 1 => {
             set_ser_fail(op.tag, Some(i));
-            let (f, ok) = measure(Item::new(op.tag, data.clone()));
-            assert!(!ok);
-            Some(f)
+            let (f, ok) = measure(mk(op.pad));
+            if ok {
+                set_ser_fail(op.tag, None);
+                None
+            } else {
+                Some(f)
+            }
         }
         _ => None,
     };
@@ -335,10 +345,11 @@ fn build(op: &Op, wrap: Wrap, rng: &mut Rng) -> Built {
         keep.push(rx);
     }
     let line = format!(
-        "tag={} size={} sizehi={} halves={} serfail={} serfailhi={} defail={} cancel={} data={}",
+        "tag={} size={} sizehi={} need={} halves={} serfail={} serfailhi={} defail={} cancel={} data={}",
         op.tag,
         size0 + HALF_LO * op.halves,
         size0 + HALF_HI * op.halves,
+        need0 + HALF_LO * op.halves,
         op.halves,
         show_opt(serfail.map(|f| f + HALF_LO * op.halves)),
         show_opt(serfail.map(|f| f + HALF_HI * op.halves)),
@@ -346,7 +357,7 @@ fn build(op: &Op, wrap: Wrap, rng: &mut Rng) -> Built {
         show_opt(op.cancel),
         hex(&data)
     );
-    Built { item: Item { tag: op.tag, halves, data }, keep, line }
+    Built { item: Item { tag: op.tag, halves, data, pad: op.pad }, keep, line }
 }
 
 async fn pause(ms: usize) {
@@ -612,7 +623,7 @@ async fn run_stream_case(case: Rc<Case>) {
         // thread of a dangling streamed item would keep the paused clock from advancing)
         let mut k = 0u32;
         while !stopped && k < 300 {
-            let probe = Op { sender: 0, tag: 800_000 + k, len: 1, halves: 0, ser_fail: None, de_fail: None, cancel: None, wait: false, pause: 0 };
+            let probe = Op { sender: 0, tag: 800_000 + k, len: 1, halves: 0, ser_fail: None, de_fail: None, cancel: None, wait: false, pause: 0, pad: 0 };
             let bt = build(&probe, wrap, &mut rng);
             let res = tx.send(bt.item, None).await;
             tr(format!("send 0 {} res={}", bt.line, res));
@@ -634,7 +645,7 @@ async fn run_stream_case(case: Rc<Case>) {
         }
         let st = tx.state_line().await;
         tr(format!("state 0 {st} closedfut={}", closed_task.as_ref().map(|t| t.is_finished() as u8).unwrap_or(2)));
-        let probe = Op { sender: 0, tag: 900_000, len: 1, halves: 0, ser_fail: None, de_fail: None, cancel: None, wait: false, pause: 0 };
+        let probe = Op { sender: 0, tag: 900_000, len: 1, halves: 0, ser_fail: None, de_fail: None, cancel: None, wait: false, pause: 0, pad: 0 };
         let bt = build(&probe, wrap, &mut rng);
         let res = tx.send(bt.item, None).await;
         tr(format!("send 0 {} res={}", bt.line, res));
@@ -809,7 +820,7 @@ async fn run_mpsc_case(case: Rc<Case>) {
                 // keep sending probe items until this sender learns of the event (no clock involved)
                 let mut k = 0u32;
                 while !stopped && k < 300 {
-                    let probe = Op { sender: i, tag: 800_000 + 1000 * i as u32 + k, len: 1, halves: 0, ser_fail: None, de_fail: None, cancel: None, wait: false, pause: 0 };
+                    let probe = Op { sender: i, tag: 800_000 + 1000 * i as u32 + k, len: 1, halves: 0, ser_fail: None, de_fail: None, cancel: None, wait: false, pause: 0, pad: 0 };
                     let bt = build(&probe, Wrap::Mpsc, &mut rng.borrow_mut());
                     match tx.send(bt.item).await {
                         Ok(h) => {
@@ -843,7 +854,7 @@ async fn run_mpsc_case(case: Rc<Case>) {
                     reason(tx.closed_reason()),
                     watcher.is_finished() as u8
                 ));
-                let probe = Op { sender: i, tag: 900_000 + i as u32, len: 1, halves: 0, ser_fail: None, de_fail: None, cancel: None, wait: false, pause: 0 };
+                let probe = Op { sender: i, tag: 900_000 + i as u32, len: 1, halves: 0, ser_fail: None, de_fail: None, cancel: None, wait: false, pause: 0, pad: 0 };
                 let bt = build(&probe, Wrap::Mpsc, &mut rng.borrow_mut());
                 match tx.send(bt.item).await {
                     Ok(h) => {
@@ -1241,7 +1252,7 @@ fn gen_ops(r: &mut Rng, n: usize, nsenders: usize, limits: &[usize], overhead: u
         } else {
             None
         };
-        ops.push(Op { sender, tag: tag0 + k as u32, len, halves, ser_fail, de_fail, cancel, wait: r.chance(1, 4), pause: if r.chance(1, 8) { 1 } else { 0 } });
+        ops.push(Op { sender, tag: tag0 + k as u32, len, halves, ser_fail, de_fail, cancel, wait: r.chance(1, 4), pause: if r.chance(1, 8) { 1 } else { 0 }, pad: 0 });
     }
     ops
 }
@@ -1318,7 +1329,7 @@ fn gen_case(g: &str, r: &mut Rng, i: u64, stats: &mut HashMap<String, u64>) -> C
         _ => {
             c.topo = r.below(2) as usize;
             c.ops = (0..n)
-                .map(|k| Op { sender: 0, tag: 1 + k as u32, len: boundary_len(r, &limits, 4), halves: 0, ser_fail: None, de_fail: None, cancel: None, wait: false, pause: 0 })
+                .map(|k| Op { sender: 0, tag: 1 + k as u32, len: boundary_len(r, &limits, 4), halves: 0, ser_fail: None, de_fail: None, cancel: None, wait: false, pause: 0, pad: 0 })
                 .collect();
         }
     }
@@ -1342,6 +1353,52 @@ fn gen_case(g: &str, r: &mut Rng, i: u64, stats: &mut HashMap<String, u64>) -> C
         stat(stats, &format!("event_{ev}"));
     }
     c
+}
+
+/// Systematic C11 sweep: every kind of channel x every event x every position of a five-item stream
+/// (the third item is streamed in chunks where the kind serializes).
+fn c11_sweep() -> Vec<Case> {
+    let mut text = String::new();
+    let kinds: [(&str, usize, &str); 9] = [
+        ("base", 0, "-"),
+        ("lr", 0, "-"),
+        ("lr", 1, "-"),
+        ("mpsc", 0, "r"),
+        ("mpsc", 0, "r,l,r"),
+        ("mpsc", 1, "r,c0"),
+        ("mpsc", 0, "r,c0,l"),
+        ("bin", 0, "-"),
+        ("bin", 1, "-"),
+    ];
+    for (kind, topo, senders) in kinds {
+        for event in ["close", "droprx", "droptx", "connfail"] {
+            if kind == "bin" && event == "connfail" {
+                continue;
+            }
+            for at in 0..=5usize {
+                let ns = if senders == "-" { 1 } else { senders.split(',').count() };
+                text.push_str(&format!(
+                    "case sweep-{kind}{topo}-{}-{event}-{at} kind={kind} event={event} at={at} topo={topo} senders={senders} cfga=10,16,24 cfgb=10,16,24 smax=149 rmax=149 seed={}\n",
+                    senders.replace(',', ""),
+                    at + 1
+                ));
+                for (k, len) in [3usize, 12, 40, 1, 20].iter().enumerate() {
+                    text.push_str(&format!("op {} tag={} len={len}\n", k % ns, k + 1));
+                }
+                text.push_str("end\n");
+            }
+        }
+    }
+    for topo in 0..3usize {
+        for event in ["close", "droprx", "droptx", "none"] {
+            for len in [3usize, 40] {
+                text.push_str(&format!(
+                    "case sweep-oneshot{topo}-{event}-{len} kind=oneshot event={event} at=0 topo={topo} cfga=10,16,24 cfgb=10,16,24 smax=149 rmax=149 seed=5\nop 0 tag=1 len={len}\nend\n"
+                ));
+            }
+        }
+    }
+    Case::parse(&text.lines().map(|s| s.to_string()).collect::<Vec<_>>())
 }
 
 /// Fixed regression cases (always run): the F1 scenario one layer up and friends.
@@ -1448,6 +1505,7 @@ fn main() {
             }
         }
         Some("fixed") => cases = fixed_cases(),
+        Some("c11sweep") => cases = c11_sweep(),
         Some("gen") => {
             let g = args[2].clone();
             let count: u64 = args[3].parse().unwrap();
